@@ -517,6 +517,13 @@ func runC15(r *Run, stratum string) *Violation {
 	if err := config.VerifFixCluster(cc); err != nil {
 		Inconc("cluster config rejected: %v", err)
 	}
+	// the mechanism the property is anchored in: a healthy leader renews at least three times per lease period, so that
+	// one lost renewal (or two) does not cost it the lease while it believes it leads. Whatever the operator wrote,
+	// the normalised interval must fit the normalised lease that way.
+	if cc.LeaseRenewInterval*3 > cc.LeaseTimeout {
+		return &Violation{Property: "C15", Rule: "C15.renew_interval", Sig: "normalised renewal interval exceeds a third of the lease period",
+			Msg: fmt.Sprintf("cluster.leaseTimeout=%v leaseRenewInterval=%v are normalised to lease %v, renewal every %v: a healthy leader renews less than three times per lease period (with more than one period between renewals its lease lapses while it acts as leader and another instance is granted the lease)", raw.LeaseTimeout, raw.LeaseRenewInterval, cc.LeaseTimeout, cc.LeaseRenewInterval)}
+	}
 	gc := config.GetSyncerConfig()
 	oldCluster := gc.Cluster
 	gc.Cluster = cc
